@@ -67,6 +67,10 @@ var matchEncoded = os.Getenv("VERIF_MATCH_ENCODED") == "1"
 // VERIF_MATCH_STRICT=1: the routers use StrictLastSlash; the model takes paths literally, which is what strict routers do
 var matchStrict = os.Getenv("VERIF_MATCH_STRICT") == "1"
 
+// VERIF_MATCH_MAY_REJECT=1: the patterns lie outside the documented grammar (capturing groups inside a variable's regex);
+// registration may refuse them (nothing is selected then), but a route that IS accepted must report the right parameters
+var matchMayReject = os.Getenv("VERIF_MATCH_MAY_REJECT") == "1"
+
 func init() {
 	families["match"] = &family{replay: matchReplay, finish: matchFinish}
 }
@@ -163,6 +167,30 @@ func matchFinish(s *Summary) {
 	s.info("pool", len(st.hdr.Pool))
 }
 
+// splitAtSegment cuts a route pattern at one of its top-level '/' (outside {..} and [..], not the first character):
+// pattern == prefix + rest, rest starts with '/'. which selects the cut; ("", pattern) when there is none.
+func splitAtSegment(pattern string, which int) (string, string) {
+	var cuts []int
+	depth := 0
+	for i := 0; i < len(pattern); i++ {
+		switch pattern[i] {
+		case '{', '[', '(':
+			depth++
+		case '}', ']', ')':
+			depth--
+		case '/':
+			if depth == 0 && i > 0 && pattern[i-1] != '/' && i < len(pattern)-1 {
+				cuts = append(cuts, i)
+			}
+		}
+	}
+	if len(cuts) == 0 {
+		return "", pattern
+	}
+	c := cuts[which%len(cuts)]
+	return pattern[:c], pattern[c:]
+}
+
 func paramsEqual(ps rux.Params, b map[string]string) bool {
 	if len(ps) != len(b) {
 		return false
@@ -210,6 +238,14 @@ func matchRunTable(st *matchState, t matchTable) {
 			func() {
 				defer func() {
 					if rec := recover(); rec != nil {
+						b.routes = append(b.routes, nil)
+						if matchMayReject {
+							st.mu.Lock()
+							st.sum.addInfo("registration_refused", 1)
+							st.mu.Unlock()
+							return
+						}
+						b.routes = b.routes[:len(b.routes)-1]
 						st.report(map[string]any{"kind": "match", "aspect": "registration-panic", "table": texts, "route": texts[i],
 							"what": fmt.Sprintf("registration of %s panicked: %v", texts[i], rec)}, caseDoc)
 						b.routes = append(b.routes, nil)
@@ -223,6 +259,14 @@ func matchRunTable(st *matchState, t matchTable) {
 						rt := rux.NewNamedRoute(tag, st.hdr.Pool[e.P-1], h, e.Ms...)
 						rt.AttachTo(b.r)
 						return rt
+					}
+					if name == "grouped" {
+						// the same pattern written as a group prefix plus the rest of the path: the table entry is the JOINED pattern
+						if pre, rest := splitAtSegment(st.hdr.Pool[e.P-1], i); pre != "" {
+							var rt *rux.Route
+							b.r.Group(pre, func() { rt = b.r.AddNamed(tag, rest, h, e.Ms...) })
+							return rt
+						}
 					}
 					return b.r.AddNamed(tag, st.hdr.Pool[e.P-1], h, e.Ms...)
 				}
@@ -245,7 +289,7 @@ func matchRunTable(st *matchState, t matchTable) {
 		}
 		return b
 	}
-	routers := []*built{mk("plain", 1), mk("cache1", 2, rux.CachingWithNum(1)), mk("cache1000", 2, rux.EnableCaching)}
+	routers := []*built{mk("plain", 1), mk("cache1", 2, rux.CachingWithNum(1)), mk("cache1000", 2, rux.EnableCaching), mk("grouped", 1)}
 	cells, compared := 0, 0
 	// two sweeps over all cells: in the second one every dynamic cell of the big cache is a hit that is NOT preceded by
 	// its own miss (entries of one route must not share parameters), and the small cache has evicted everything
@@ -298,12 +342,19 @@ func matchRunTable(st *matchState, t matchTable) {
 						}
 						if got == want && b.name == "plain" && !st.hdr.Strict && !matchStrict && !matchEncoded && path != "/" {
 							// the same request spelled with a doubled leading slash or a trailing slash (lookup normalises both away)
-							for _, alt := range []string{"/" + path, path + "/", "//" + path + "//"} {
+							// or with white space around it (every Unicode space is trimmed): same route, same parameters
+							for _, alt := range []string{"/" + path, path + "/", "//" + path + "//", path + " ", path + "\u00a0", "\u2003" + path + "\t", path + "/\u3000"} {
 								var r2 *rux.Route
+								var ps2 rux.Params
 								func() {
 									defer func() { _ = recover() }()
-									r2, _, _ = b.r.Match(m, alt)
+									r2, ps2, _ = b.r.Match(m, alt)
 								}()
+								if r2 == route && route != nil && !paramsEqual(ps2, map[string]string(ps)) {
+									st.report(map[string]any{"kind": "params", "aspect": "params", "table": texts, "method": m, "path": alt, "router": b.name,
+										"what": fmt.Sprintf("%s %q on %v: params %v, but the same request spelled %q has params %v (both normalise to the same path)", m, alt, texts, ps2, path, ps)}, caseDoc)
+									break
+								}
 								if r2 != route {
 									st.report(map[string]any{"kind": "match", "aspect": "selection", "table": texts, "method": m, "path": alt, "router": b.name,
 										"what": fmt.Sprintf("%s %s on %v: selects a different route than the same request spelled %s (route found: %v vs %v)", m, alt, texts, path, r2 != nil, route != nil)}, caseDoc)
@@ -362,7 +413,7 @@ func matchRunTable(st *matchState, t matchTable) {
 		hb := mk("head-first-cache", 1, rux.EnableCaching)
 		for _, h := range t.Hits["GET"] {
 			q, want := h[0], h[1]
-			if want <= 0 || q >= len(st.paths) {
+			if want <= 0 || q >= len(st.paths) || (matchMayReject && hb.routes[want-1] == nil) {
 				continue
 			}
 			allowed := st.mat[t.T[want-1].P][q]
@@ -453,7 +504,7 @@ func matchRunTable(st *matchState, t matchTable) {
 			}
 			for _, h := range t.Hits[m] {
 				q, want := h[0], h[1]
-				if want <= 0 || q >= len(st.paths) {
+				if want <= 0 || q >= len(st.paths) || (matchMayReject && b.routes[want-1] == nil) {
 					continue
 				}
 				path := st.paths[q]
